@@ -44,3 +44,12 @@ Print Assumptions C05_stream_v2.
 Print Assumptions C05_v2.
 Print Assumptions C05_v2_auto.
 Print Assumptions C05_flags.
+(* the same through the auto-detecting entry point, which is what examples/server.rs calls *)
+Theorem C05_stream_auto_v1 : forall x hd reads, p1 x = Ok hd -> ascii (text hd) = true -> concat reads = x ->
+  receive pa is_incomplete_a [] reads = Some (RV1 (Ok hd)).
+Proof. exact receive_auto_v1. Qed.
+Print Assumptions C05_stream_auto_v1.
+Theorem C05_stream_auto_v2 : forall x h reads, wf_bytes x = true -> p2 x = Ok h -> concat reads = x ->
+  receive pa is_incomplete_a [] reads = Some (RV2 (Ok h)).
+Proof. exact receive_auto_v2. Qed.
+Print Assumptions C05_stream_auto_v2.
